@@ -4,9 +4,9 @@
    stop / flush); `reach c nw s` = s is reachable from the initial state with nw writer threads and
    buffer capacity `maxsize c`, by ANY sequence of steps (any number of threads, any schedule, any
    sequence of allocation failures). *)
-From Coq Require Import NArith List Bool.
+From Coq Require Import NArith Arith List Bool.
 Import ListNotations.
-Require Import UV.C03.Model UV.C03.Inv UV.C03.Proofs UV.C03.Lost UV.C03.Fits.
+Require Import UV.C03.Model UV.C03.Inv UV.C03.Proofs UV.C03.Lost UV.C03.Fits UV.C03.Progress.
 
 (* The invariant (UV.C03.Inv.Inv) holds in every reachable state:  for every thread t
      file t ++ contents of (writer's head ++ writer's bufs ++ t's part of buf_write_list ++
@@ -27,6 +27,17 @@ Theorem C03_final : forall c nw s, reach c nw s -> finished s = true ->
   forall t, file s t = emitted s t /\ bytes_of (file s t) = bytes_of (emitted s t).
 Proof. exact final_exact. Qed.
 Print Assumptions C03_final.
+
+(* ... and that situation can always be reached: from EVERY reachable state (whatever the schedule was, wherever
+   the buffers are: FIFO, shmem_list, buf_write_list, a writer's lists, half-way through a write) recorder steps
+   alone - drain the FIFO, stop, let the writers run out, join, flush - lead to a finished state in which every
+   file is exactly what its thread had emitted.  No reachable state has data stuck anywhere.
+   (rl l = l is one of M_msg, W_pick, W_write, W_release, W_splice, M_stop, M_join, M_flush1, M_rem1.) *)
+Theorem C03_can_finish : forall c nw s, reach c nw s ->
+  exists ls s', Forall rl ls /\ run c s ls = Some s' /\ finished s' = true /\
+                forall t, file s' t = emitted s t /\ bytes_of (file s' t) = bytes_of (emitted s t).
+Proof. exact can_finish. Qed.
+Print Assumptions C03_can_finish.
 
 (* At every moment the file is a prefix of the thread's output that ends at a record boundary. *)
 Theorem C03_whole_records : forall c nw s t, reach c nw s ->
@@ -54,7 +65,7 @@ Print Assumptions C03_buffers_owned.
 (* Records are dropped only by an emit whose new buffer could not be allocated while every buffer of
    the ring was still RECORDING; the record is dropped whole and the thread's output is unchanged. *)
 Theorem C03_lost_only_on_alloc_failure : forall c s l s' t, step c s l = Some s' -> dropped s' t <> dropped s t ->
-  exists r, l = P_emit t r false /\ find_free s t = None /\
+  exists r pad, l = P_emit t r pad false /\ find_free s t = None /\
             dropped s' t = dropped s t ++ [r] /\ emitted s' t = emitted s t.
 Proof. exact drop_only_on_alloc_failure. Qed.
 Print Assumptions C03_lost_only_on_alloc_failure.
@@ -91,19 +102,33 @@ Theorem C03_lost_tail_unreported_refuted :
 Proof. exact tail_loss_unreported_refuted. Qed.
 Print Assumptions C03_lost_tail_unreported_refuted.
 
-(* No buffer is ever filled beyond its capacity (no write past the shm object, nothing torn), provided
-   a LOST marker plus any single record fits - the real option rounds -b up to a page, records are at
-   most 16+1024 bytes.  reach_small = reachable by steps whose records satisfy 16 + |r| <= maxsize. *)
-Theorem C03_buffers_fit : forall c nw s, reach_small c nw s -> forall b, size s b <= maxsize c.
+(* No buffer is ever filled beyond its capacity (no write past the shm object, nothing torn), for records of
+   any size (argument payloads: the size test counts 16 + argsize, `size` advances by 16 + ALIGN (argsize, 8)),
+   provided the capacity is a multiple of 8 and a LOST marker plus any single record fits - the real
+   option rounds -b up to a page, records are at most 16+1024 bytes.  reach_small = reachable by steps whose
+   records r satisfy 16 + |r| <= maxsize, 8 | |r|, pad < 8. *)
+Theorem C03_buffers_fit : forall c nw s, Nat.modulo (maxsize c) 8 = 0 -> reach_small c nw s -> forall b, size s b <= maxsize c.
 Proof. exact buffers_fit. Qed.
 Print Assumptions C03_buffers_fit.
 
-(* ... and the hypothesis is needed: get_new_shmem_buffer puts the record behind the LOST marker without
-   a second size check (UFTRACE_BUFFER = 32, i.e. one record per buffer: 32 bytes in a 16-byte buffer). *)
+Theorem C03_buffers_fit_nonvacuous :
+  exists s, reach_small {| maxsize := 56 |} 1 s /\ size s (0, 0) = 40 /\ size s (0, 1) = 56 /\ curr s 0 = Some 1.
+Proof. exact small_run. Qed.
+Print Assumptions C03_buffers_fit_nonvacuous.
+
+(* ... and both hypotheses are needed: get_new_shmem_buffer puts the record behind the LOST marker without
+   a second size check (UFTRACE_BUFFER = 32, one record per buffer: 32 bytes in a 16-byte buffer) ... *)
 Theorem C03_overflow_without_room_refuted :
   exists s, run {| maxsize := 16 |} (init 1) overflow_trace = Some s /\ size s (0, 0) = 32.
 Proof. exact overflow_refuted. Qed.
 Print Assumptions C03_overflow_without_room_refuted.
+
+(* ... and with a capacity that is not a multiple of 8 (UFTRACE_BUFFER = 36 given to libmcount directly) a
+   record with a 4-byte argument passes the size test with 20 bytes and occupies 24. *)
+Theorem C03_overflow_unaligned_refuted :
+  exists s, run {| maxsize := 20 |} (init 1) unaligned_trace = Some s /\ size s (0, 0) = 24.
+Proof. exact overflow_unaligned_refuted. Qed.
+Print Assumptions C03_overflow_unaligned_refuted.
 
 (* Non-vacuity: 2 threads, 2 writers, 2 records per buffer, buffer reuse, a refused allocation followed
    by a LOST marker, a direct hand-over to a busy writer, flush of an unfinished thread. *)
